@@ -27,6 +27,24 @@ def loadThenResolveY (cfg : LoadCfg) (penv : List (Key × Str)) (fs : FS) (svcs 
     Except (List Err) (List (Str × Service)) :=
   loadThenResolve cfg penv fs (svcs.map fun p => (p.1, p.2.yenv, p.2.decoded))
 
+/-! ## value-less entries of a service written in an *included* file
+
+`ApplyInclude` loads the included file with `loadYamlModel` (not `load`: no `Normalize`) and the include's own
+environment `ienv` = the project environment, then the include's `env_file` (default `<dir>/.env`) for the variables the
+project environment does not have.  `loadYamlModel` ends with `resolveServicesEnvironment(dict, ienv)` — the **sequence
+form only**.  The imported services then go through the main model's stages with the project environment. -/
+
+/-- the include's environment: the project environment wins over the include's env file -/
+def includeEnv (penv ifile : List (Key × Str)) : List (Key × Str) := penv ++ ifile
+
+/-- the `environment` of a service of an included file as decoded by a whole load -/
+def loadedEnvIncluded (cfg : LoadCfg) (penv ifile : List (Key × Str)) (y : YEnv) : List (Key × Option Str) :=
+  loadedEnv cfg penv (resolveSeqEnv (includeEnv penv ifile) y)
+
+/-- the same entries in the other YAML form -/
+def YEnv.asList (kvs : List (Key × Option Str)) : YEnv :=
+  .list (kvs.map fun kv => match kv.2 with | some v => Item.kv kv.1 v | none => Item.bare kv.1)
+
 /-! ## relocation -/
 
 def EnvFile.reloc (ρ : Str → Str) (f : EnvFile) : EnvFile := { f with path := ρ f.path }
